@@ -882,3 +882,55 @@ ODD_IDS = ['', '0', 'None', ' ', 'null', 'é', '-1', 'id']
 def odd_id_namer(kind, ri, i):
     """explicit ids that are valid JSON strings but falsy / number-like / keyword-like"""
     return ODD_IDS[i] if i < len(ODD_IDS) else f'r{ri}{kind}{i}'
+
+
+def gen_private_dependency_spec(rng, wdomain='log'):
+    """A cyclic component of 2-4 nonterminals entered from the start symbol through ONE member, in which ANOTHER member
+    is the only user of an outside nonterminal C (possibly itself depending on D), and the best / heaviest derivations
+    go through C.  Nonterminals are unary over one small domain (or nullary); the declaration order of nonterminals
+    and the order of rules are shuffled, so the component's internal iteration order varies."""
+    n = rng.randint(2, 4)
+    unary = rng.random() < 0.6
+    typ = ['L0'] if unary else []
+    dom = rng.randint(1, 3)
+    members = [f'M{i}' for i in range(n)]
+    entry = rng.randrange(n)
+    priv = rng.choice([i for i in range(n) if i != entry])
+    names = ['S'] + members + ['C'] + (['D'] if rng.random() < 0.4 else [])
+    decl = names[1:]
+    rng.shuffle(decl)
+    nts = {'S': typ}
+    for m in decl:
+        nts[m] = typ
+    terminals, weights, rules = {}, {}, []
+
+    def term(val_lo, val_hi):
+        t = f'f{len(terminals)}'
+        terminals[t] = list(typ)
+        w = lambda: round(rng.uniform(val_lo, val_hi), 3)
+        weights[t] = [w() for _ in range(dom)] if unary else w()
+        return t
+
+    def rule(lhs, nt=None, lo=-0.6, hi=-0.2):
+        t = term(lo, hi)
+        nodes, ext, att = (['L0'], [0], [0]) if unary else ([], [], [])
+        edges = [[t, list(att)]] + ([[nt, list(att)]] if nt else [])
+        rng.shuffle(edges)
+        rules.append(dict(lhs=lhs, nodes=nodes, ext=ext, edges=edges))
+    rule('S', members[entry])
+    for i in range(n):
+        rule(members[i], members[(i + 1) % n])                 # the cycle
+    if n >= 3 and rng.random() < 0.5:
+        a, b = rng.sample(range(n), 2)
+        rule(members[a], members[b])                           # a chord
+    rule(members[priv], 'C', -0.3, -0.1)                       # the private outside dependency
+    rule(members[rng.randrange(n)], None, -6.0, -4.0)          # a poor terminating rule inside the component
+    if 'D' in names:
+        rule('C', 'D', -0.2, -0.05)
+        rule('D', None, -0.2, -0.05)
+    else:
+        rule('C', None, -0.2, -0.05)
+    rng.shuffle(rules)
+    if wdomain == 'real':
+        weights = {t: map_nested(w, math.exp) for t, w in weights.items()}
+    return dict(domains={'L0': dom}, terminals=terminals, nonterminals=nts, start='S', rules=rules, weights=weights, wdomain=wdomain)
